@@ -58,10 +58,13 @@ func isExprAssigned(s string) bool {
 	v := strings.TrimSpace(s)
 	// Do not check `strings.Count(s.Value, "}}") == 1` because it might appear in JSON string
 	//   if: ${{ env.foo == '{"foo": {"bar": true}}' }}
-	return strings.HasPrefix(v, "${{") &&
-		strings.HasSuffix(v, "}}") &&
-		strings.Count(v, "${{") == 1 &&
-		indexOfPlaceholderEnd(v) == len(v)-len("}}") // The placeholder must end at the end: `${{ 1 }} }}` is a text
+	if !strings.HasPrefix(v, "${{") || !strings.HasSuffix(v, "}}") || strings.Count(v, "${{") != 1 {
+		return false
+	}
+	// The placeholder must end at the end: `${{ 1 }} }}` is a text. When no end is found, a string literal in the
+	// placeholder is not terminated. It is a broken expression rather than a text
+	end := indexOfPlaceholderEnd(v)
+	return end == -1 || end == len(v)-len("}}")
 }
 
 // IsExpressionAssigned returns whether a single expression is assigned to the string.
